@@ -104,7 +104,47 @@ def c_local(ctx, args):
     return None
 
 
-CHECKS = {'prog_corr': c_prog_corr, 'prog_seq': c_prog_seq, 'gate_corr': c_gate_corr, 'local': c_local}
+def c_recompile(ctx, args):
+    """history: build, compile, extend (take / compose), compile again (the documented way to refresh the maps), run; must equal the gates one at a time"""
+    cls, N, prog1, prog2, l, mode, how, direction = args
+    c = NP.build_circuit(N, prog1, cls)
+
+    def comp(c):
+        if mode == 1:
+            for layer in c.layers_forward():
+                layer.compile(N)
+        else:
+            c.compile()
+    comp(c)
+    if how == 'copy':
+        c = c.copy() if cls == 'CliffordCircuit' else c
+    if how == 'compose' and cls == 'CliffordCircuit':
+        c.compose(NP.build_circuit(N, prog2, cls))
+    else:
+        for ins in prog2:
+            c.take(NP.mk_gate(ins[1]))
+    comp(c)
+    o = NP.PL(l)
+    ref = NP.PL(l)
+    if direction == 'forward':
+        c.forward(o)
+        for ins in prog1 + prog2:
+            NP.mk_gate(ins[1]).forward(ref)
+    else:
+        c.backward(o)
+        for ins in reversed(prog1 + prog2):
+            NP.mk_gate(ins[1]).backward(ref)
+    got, want = NP.oPL(o), NP.oPL(ref)
+    if got != want:
+        return {'kind': 'oracle', 'where': 'np:%s compile -> extend(%s) -> compile -> %s (mode %d)' % (cls, how, direction, mode), 'observed': got, 'expected': want}
+    if ctx.model is not None and not ctx.search:
+        mw = ctx.model.call('circ_forward' if direction == 'forward' else 'circ_backward', N, mprog(prog1 + prog2), l, mode)
+        if not isinstance(mw, Err) and mw != got:
+            return {'kind': 'corr', 'where': 'np:recompiled circuit vs model', 'observed': got, 'expected': mw}
+    return None
+
+
+CHECKS = {'recompile': c_recompile, 'prog_corr': c_prog_corr, 'prog_seq': c_prog_seq, 'gate_corr': c_gate_corr, 'local': c_local}
 
 
 def run(ctx):
@@ -120,6 +160,8 @@ def run(ctx):
             for mode in (0, 1, 2):
                 do(ctx, 'prog_corr', ['CliffordCircuit', N, prog, ops, mode, 'orig'], nontrivial=('e', str(prog), mode))
             do(ctx, 'prog_seq', ['Circuit', N, prog, ops, 2, 'orig', 'list'])
+    # history corpus: compile, add a gate that slides into an already compiled layer, compile again
+    do(ctx, 'recompile', ['CliffordCircuit', 3, [[0, [[0], [0, [[1, 0], 0]]]]], [[0, [[2], [0, [[1, 1], 0]]]]], [[[0, 0, 0, 0, 1, 0], 2], [[0, 1, 0, 0, 0, 1], 1]], 2, 'take', 'forward'], nontrivial='rc0', sample=True)
     ctx.res.exhaustive = True
     for it in range(int(260 * B)):
         N = rng.randint(1, 5)
@@ -138,5 +180,9 @@ def run(ctx):
         g = prog[rng.randrange(L)][1]
         do(ctx, 'gate_corr', [N, g, l])
         do(ctx, 'local', [N, g, l])
+        if it % 2 == 0:
+            h = rng.randint(1, max(1, L - 1))
+            do(ctx, 'recompile', [cls, N, prog[:h], prog[h:] or rprog(rng, ctx.model, N, 2), l, rng.choice([1, 2]), rng.choice(['take', 'compose', 'copy']), rng.choice(['forward', 'backward'])],
+               nontrivial=('rc', it))
         ctx.res.count('layers_%d' % min(nlayers, 6))
         ctx.res.count('mode%d_%s_%s' % (mode, cls, variant))
